@@ -1,13 +1,19 @@
-"""C18 — supervisor; see DESIGN.md section 6.  Proof: props/C18.v.  Tie: trace acceptance (check B)."""
+"""C18 — supervisor; see DESIGN.md section 6.  Proof: props/C18.v.  Tie: trace acceptance (check B).
+Further legs (each in its own module, reporting with a key prefix): composite (c18_composite), HTTP server
+(c18_http), HTTP cluster (c18_cluster), internal/finitestate subscriptions (c18_fsm)."""
+import json
 from . import supcommon as S
 from . import c18_composite as LC
 from . import c18_http as LH
+from . import c18_cluster, c18_fsm
 
-OCAML = S.OCAML + LC.OCAML + LH.OCAML
-GO = S.GO + LC.GO + LH.GO
+OCAML = S.OCAML + LC.OCAML + LH.OCAML + c18_cluster.OCAML + c18_fsm.OCAML
+GO = S.GO + LC.GO + LH.GO + c18_cluster.GO + c18_fsm.GO
 FAMILIES = "mixed,reload,state,sdsender,big,subclose,errs".split(",")
 PROP = "props/C18.v"
-PROOFS = ["proofs/SupInv.v", "proofs/SupStop.v", "proofs/SupTrig.v", "proofs/SupGate.v", "proofs/SupOnce.v", "proofs/SupReload.v", "proofs/SupCensus.v"] + [f for f in LC.PROOFS] + [f for f in LH.PROOFS]
+# the legs' proof files are listed too, so that the obligation counts of the evidence cover props/C18.v as a whole
+PROOFS = (["proofs/SupInv.v", "proofs/SupStop.v", "proofs/SupTrig.v", "proofs/SupGate.v", "proofs/SupOnce.v", "proofs/SupReload.v", "proofs/SupCensus.v"]
+          + [f for f in LC.PROOFS] + [f for f in LH.PROOFS] + c18_cluster.FILES + ["model/FsmGo.v", "proofs/FsmCensus.v"])
 
 
 def run(run):
@@ -15,7 +21,14 @@ def run(run):
     # further legs: each compares the real goroutine census of one component with its model's census
     LC.leg(run)
     LH.leg(run)
+    c18_cluster.leg(run)
+    c18_fsm.leg(run)
 
 
 def replay(path):
+    kind = json.load(open(path)).get("replay", {}).get("kind")
+    if kind == "c18-cluster":
+        return c18_cluster.replay_payload(json.load(open(path))["replay"], path)
+    if kind in ("c18-fsm", "c18-fsm-soak"):
+        return c18_fsm.replay_payload(json.load(open(path))["replay"], path)
     return S.replay("C18", path)
